@@ -562,11 +562,13 @@ impl Range {
     }
 
     fn from_min_max(min: f64, max: f64) -> Result<Self> {
-        let range = max - min;
+        // Halved values avoid an overflow to infinity for very large ranges
+        let range = max * 0.5 - min * 0.5;
         if range < 0.0 {
             Error::invalid(format!("Found invalid range: min={min}, max={max}"))?;
         }
-        let inv_range = 1.0 / range;
+        // A degenerate range with min=max normalizes all values to zero
+        let inv_range = if range > 0.0 { 1.0 / range } else { 0.0 };
         Ok(Self {
             min,
             max,
@@ -668,7 +670,7 @@ impl Range {
     #[inline]
     fn normalize(&self, value: f64) -> f32 {
         let clamped = value.clamp(self.min, self.max);
-        let normalized = (clamped - self.min) * self.inv_range;
+        let normalized = (clamped * 0.5 - self.min * 0.5) * self.inv_range;
         normalized as f32
     }
 }
